@@ -386,6 +386,9 @@ func (c13) Run(c Case) Result {
 				if int(out.Length) != 4*int(out.IHL)+len(out.Payload) {
 					fail("C13:length", fmt.Sprintf("step %d: Length=%d but 4*IHL+|payload|=%d", step, out.Length, 4*int(out.IHL)+len(out.Payload)))
 				}
+				if 4*int(out.IHL)+len(out.Payload) > 65535 {
+					fail("C13:oversize", fmt.Sprintf("step %d: returned a datagram of %d header + %d payload bytes (> 65535), Length=%d", step, 4*int(out.IHL), len(out.Payload), out.Length))
+				}
 				if out.Flags != 0 || out.FragOffset != 0 {
 					fail("C13:frag-fields", fmt.Sprintf("step %d: Flags=%d FragOffset=%d", step, out.Flags, out.FragOffset))
 				}
@@ -1208,6 +1211,63 @@ func (g *c13gen) offsetLimitCase() Case {
 	return Case{Prop: "C13", Ops: g.arrival([][]c13f4{fr}, 0, false)}
 }
 
+// mixedIHLCase: the offset-0 fragment carries (non-copied) IP options, the others the plain 20-byte
+// header, as real stacks fragment; payload chosen so that 4*IHL_first + payload = total lies around the
+// 65535 limit (every fragment is acceptable on its own); the first fragment arrives at position pos of
+// the arrival order (nfrag-1 = last: its IHL becomes the header of the result).
+func (g *c13gen) mixedIHLCase(ihl1, total, nfrag, pos int) Case {
+	k := g.key()
+	n := total - 4*ihl1
+	if n > 65515 {
+		n = 65515
+	}
+	pl := g.bytes(n)
+	opt := g.bytes(4*ihl1 - 20)
+	if len(opt) > 1 {
+		opt[0], opt[1] = 7, byte(len(opt)-1) // record route (not copied on fragmentation) + end of list
+		opt[len(opt)-1] = 0
+	}
+	// cuts: first fragment short, last fragment starts at or below 8*8183
+	cuts := []int{0, 8 * (1 + g.rng.Intn(64))}
+	lastCut := 8 * (8183 - g.rng.Intn(40))
+	for i := 2; i < nfrag-1; i++ {
+		cuts = append(cuts, cuts[1]+8*(1+g.rng.Intn((lastCut-cuts[1])/8-1)))
+	}
+	cuts = append(cuts, lastCut, n)
+	sort.Ints(cuts)
+	var first c13f4
+	var rest []c13f4
+	for i := 0; i+1 < len(cuts); i++ {
+		a, b := cuts[i], cuts[i+1]
+		if a == b {
+			continue
+		}
+		fl := 1
+		if b == n {
+			fl = 0
+		}
+		f := c13f4{src: k.src, dst: k.dst, id: k.id, ihl: 5, length: 20 + b - a, flags: fl, off: a / 8, ttl: 33, proto: 17, pl: pl[a:b]}
+		if a == 0 {
+			f.ihl, f.length, f.opt = ihl1, 4*ihl1+b-a, opt
+			first = f
+		} else {
+			rest = append(rest, f)
+		}
+	}
+	g.rng.Shuffle(len(rest), func(i, j int) { rest[i], rest[j] = rest[j], rest[i] })
+	if pos > len(rest) {
+		pos = len(rest)
+	}
+	seq := append(append(append([]c13f4(nil), rest[:pos]...), first), rest[pos:]...)
+	var ops []string
+	for _, f := range seq {
+		g.ts++
+		f.ts = g.ts
+		ops = append(ops, f.op())
+	}
+	return Case{Prop: "C13", Ops: ops}
+}
+
 func (c13) Gen(rng *rand.Rand, tier string) []Case {
 	g := &c13gen{rng: rng, ts: 1000}
 	var out []Case
@@ -1244,5 +1304,23 @@ func (c13) Gen(rng *rand.Rand, tier string) []Case {
 	}
 	out = append(out, g.tooManyCase(0), g.tooManyCase(1))
 	out = append(out, g.offsetLimitCase())
+	// mixed header lengths around the 65535 limit: quick keeps a handful (65 KB payloads)
+	out = append(out, g.mixedIHLCase(15, 65575, 3, 2), // over the limit, long header last: must be refused
+		g.mixedIHLCase(15, 65535, 3, 2),  // exactly at the limit, long header last
+		g.mixedIHLCase(15, 65536, 4, 3),  // one byte over
+		g.mixedIHLCase(11, 65570, 3, 0),  // over for the first header, which arrives first (20-byte header wins)
+		g.mixedIHLCase(7, 65540, 4, 1))   // first fragment in the middle
+	if tier == "thorough" {
+		for i := 0; i < 60; i++ {
+			ihl1 := 6 + g.rng.Intn(10)
+			nfrag := 3 + g.rng.Intn(3)
+			out = append(out, g.mixedIHLCase(ihl1, 65500+g.rng.Intn(101), nfrag, g.rng.Intn(nfrag)))
+		}
+		for _, tot := range []int{65534, 65535, 65536, 65537} {
+			for pos := 0; pos < 3; pos++ {
+				out = append(out, g.mixedIHLCase(15, tot, 3, pos), g.mixedIHLCase(6, tot, 3, pos))
+			}
+		}
+	}
 	return out
 }
